@@ -545,6 +545,42 @@ func (p *process) SendWithPriority(to any, message any, priority gen.MessagePrio
 	return err
 }
 
+// sendAs routes the message with the given priority on behalf of this process. It is
+// used by its meta processes, which run in goroutines of their own: they must not go
+// through SendWithPriority, which changes the send priority of the process for the time
+// of the call (a message the process sends at that moment would take that priority too
+// and overtake the ones it has sent before).
+func (p *process) sendAs(to any, message any, priority gen.MessagePriority) error {
+	if p.isAlive() == false {
+		return gen.ErrNotAllowed
+	}
+	options := gen.MessageOptions{
+		Priority:         priority,
+		Compression:      p.compression,
+		KeepNetworkOrder: p.keeporder,
+	}
+	var err error
+	switch t := to.(type) {
+	case gen.PID:
+		err = p.node.RouteSendPID(p.pid, t, options, message)
+	case gen.ProcessID:
+		err = p.node.RouteSendProcessID(p.pid, t, options, message)
+	case gen.Alias:
+		err = p.node.RouteSendAlias(p.pid, t, options, message)
+	case gen.Atom:
+		err = p.node.RouteSendProcessID(p.pid, gen.ProcessID{Name: t, Node: p.node.name}, options, message)
+	case string:
+		err = p.node.RouteSendProcessID(p.pid, gen.ProcessID{Name: gen.Atom(t), Node: p.node.name}, options, message)
+	default:
+		return gen.ErrUnsupported
+	}
+	if err != nil {
+		return err
+	}
+	atomic.AddUint64(&p.messagesOut, 1)
+	return nil
+}
+
 func (p *process) Send(to any, message any) error {
 	switch t := to.(type) {
 	case gen.PID:
